@@ -59,7 +59,13 @@ VARIABLES
 core == <<isRoot, mode, src, cached, ents, mem, fetched, reported, sfheld>>
 vars == <<isRoot, mode, src, cached, ents, mem, fetched, reported, sfheld, last>>
 
-KindOf(n) == IF n = "d" THEN "dir" ELSE "reg"
+\* entry kinds of the model are a function of the name: real character devices (1:3, and 0:0 - by attributes
+\* indistinguishable from a synthesised whiteout, but still a REAL entry of the layer: listed, and Lookup must succeed
+\* with the entry's own inode), a block device 8:1, a fifo, a symlink, the directory "d", everything else regular
+KindOf(n) == CASE n = "d" -> "dir" [] n \in {"c13", "c00"} -> "chr" [] n = "blk" -> "blk" [] n = "ff" -> "fifo"
+               [] n = "sl" -> "lnk" [] OTHER -> "reg"
+\* device number as the kernel gets it (unix.Mkdev(major, minor))
+RdevOf(n) == CASE n = "c13" -> 259 [] n = "blk" -> 2049 [] OTHER -> 0
 \* the one hard link of the model: the name "l" is a hard link to the regular file "a" of the same directory
 LinkName == "l"
 LinkTarget == "a"
@@ -111,8 +117,12 @@ Readdir ==
 HiddenName(n) == HasWhPrefix(n) \/ (isRoot /\ n \in Landmarks)
 
 Enoent(n) == [act |-> "Lookup", n |-> n, errno |-> "ENOENT", kind |-> "none", ino |-> "none", rdev |-> 0]
-Found(n, k, i) == [act |-> "Lookup", n |-> n, errno |-> "OK", kind |-> k, ino |-> i, rdev |-> 0, nlink |-> NlinkFor(i)]
 WhKind(w) == IF WhiteoutAttr THEN "chr" ELSE KindOf(w)
+FoundR(n, k, i, rd) == [act |-> "Lookup", n |-> n, errno |-> "OK", kind |-> k, ino |-> i, rdev |-> rd, nlink |-> NlinkFor(i)]
+Found(n, k, i) == FoundR(n, k, i, 0)
+\* in-memory children: wh = the child is a *whiteout object (else a *node of the raw entry named by ino)
+MemWh(n) == [kind |-> WhKind(WhOf(n)), ino |-> WhOf(n), rdev |-> IF WhiteoutAttr THEN 0 ELSE RdevOf(WhOf(n)), wh |-> TRUE]
+MemReal(n) == [kind |-> KindOf(n), ino |-> InoOf(n), rdev |-> RdevOf(n), wh |-> FALSE]
 
 Lookup(n) ==
     /\ n \in LookupU
@@ -121,7 +131,7 @@ Lookup(n) ==
        THEN \* landmarks in "/" and whiteout files themselves are not shown; the whiteout OF such a name is
             IF PrefixedWhiteoutLookup /\ WhOf(n) # Opq /\ WhOf(n) \in Raw
             THEN /\ last' = Found(n, WhKind(WhOf(n)), WhOf(n))
-                 /\ mem' = [x \in DOMAIN mem \cup {n} |-> IF x = n THEN [kind |-> WhKind(WhOf(n)), ino |-> WhOf(n)] ELSE mem[x]]
+                 /\ mem' = [x \in DOMAIN mem \cup {n} |-> IF x = n THEN MemWh(n) ELSE mem[x]]
                  /\ UNCHANGED <<cached, ents>>
             ELSE /\ last' = Enoent(n)
                  /\ UNCHANGED <<cached, ents, mem>>
@@ -130,19 +140,21 @@ Lookup(n) ==
             /\ UNCHANGED <<cached, ents, mem>>
        ELSE IF n \in DOMAIN mem
        THEN \* "lookup on memory nodes"
-            /\ last' = Found(n, IF mem[n].kind = "chr" /\ ~MemWhiteoutAttr THEN KindOf(mem[n].ino) ELSE mem[n].kind, mem[n].ino)
+            /\ last' = IF mem[n].wh /\ ~MemWhiteoutAttr
+                       THEN FoundR(n, KindOf(mem[n].ino), mem[n].ino, RdevOf(mem[n].ino))
+                       ELSE FoundR(n, mem[n].kind, mem[n].ino, mem[n].rdev)
             /\ UNCHANGED <<cached, ents, mem>>
        ELSE IF cached /\ n \notin NamesOf(ents)
        THEN \* "early return if this entry doesn't exist"
             /\ last' = Enoent(n)
             /\ UNCHANGED <<cached, ents, mem>>
        ELSE IF n \in Raw
-       THEN /\ last' = Found(n, KindOf(n), InoOf(n))
-            /\ mem' = [x \in DOMAIN mem \cup {n} |-> IF x = n THEN [kind |-> KindOf(n), ino |-> InoOf(n)] ELSE mem[x]]
+       THEN /\ last' = FoundR(n, KindOf(n), InoOf(n), RdevOf(n))
+            /\ mem' = [x \in DOMAIN mem \cup {n} |-> IF x = n THEN MemReal(n) ELSE mem[x]]
             /\ UNCHANGED <<cached, ents>>
        ELSE IF WhOf(n) \in Raw
        THEN /\ last' = Found(n, WhKind(WhOf(n)), WhOf(n))
-            /\ mem' = [x \in DOMAIN mem \cup {n} |-> IF x = n THEN [kind |-> WhKind(WhOf(n)), ino |-> WhOf(n)] ELSE mem[x]]
+            /\ mem' = [x \in DOMAIN mem \cup {n} |-> IF x = n THEN MemWh(n) ELSE mem[x]]
             /\ UNCHANGED <<cached, ents>>
        ELSE \* "This code path is very expensive. Cache child entries here": n.readdir()
             /\ last' = Enoent(n)
@@ -160,7 +172,7 @@ Forget(n) ==
 \* Getattr of an in-memory child (node.Getattr / whiteout.Getattr)
 GetattrChild(n) ==
     /\ n \in DOMAIN mem
-    /\ last' = [act |-> "GetattrChild", n |-> n, errno |-> "OK", kind |-> mem[n].kind, ino |-> mem[n].ino, rdev |-> 0,
+    /\ last' = [act |-> "GetattrChild", n |-> n, errno |-> "OK", kind |-> mem[n].kind, ino |-> mem[n].ino, rdev |-> mem[n].rdev,
                 nlink |-> NlinkFor(mem[n].ino)]
     /\ UNCHANGED core
 
@@ -275,8 +287,15 @@ LookupAgrees(r, L, root) ==
         /\ (r.errno = "OK") <=> (r.n \in NamesOf(L))
         /\ r.errno = "OK" => /\ r.kind = EntryOf(L, r.n).kind
                              /\ r.ino = EntryOf(L, r.n).ino
-                             /\ r.kind = "chr" => r.rdev = 0
         /\ r.errno \in {"OK", "ENOENT"}
+
+\* type and device number of a served entry r (Lookup / Getattr of a child): a REAL entry of the layer has its own kind
+\* and rdev (a real 0:0 character device included), a synthesised whiteout is a character device 0:0
+EntryAttrOK(r, rawnames, root) ==
+    (r.errno = "OK" /\ r.n \notin {".", ".."} /\ ~(root /\ r.n = StateDir)) =>
+        IF r.n \in NormalNames([x \in rawnames |-> KindOf(x)], root)
+        THEN r.kind = KindOf(r.n) /\ r.rdev = RdevOf(r.n)
+        ELSE r.kind = "chr" /\ r.rdev = 0
 
 \* opaque marker => exactly the configured overlay opaque xattr(s), value "y"
 GetxattrOK(r, rawnames, m) ==
@@ -297,6 +316,7 @@ ListingIsTranslation ==
     /\ last.act = "Readdir" => ListingOK(last.list, Raw, isRoot)
     /\ ListingOK(CurListing, Raw, isRoot)
     /\ (isRoot /\ TocName \in src) => TocName \notin NamesOf(CurListing)
+    /\ last.act \in {"Lookup", "GetattrChild"} => EntryAttrOK(last, Raw, isRoot)
 ListedIffLookup ==
     last.act = "Lookup" => LookupAgrees(last, CurListing, isRoot)
 InodesUniqueStable ==
